@@ -211,8 +211,10 @@ def run_case(case, tier):
         # +-x, +-y, +-z occurs); its hydrogens are built around a direction perpendicular to such a bond
         from .. import fragments
         fname = rng.choice(("methanol", "methanethiol", "methylamine", "fluoromethane", "chloromethane", "acetonitrile",
-                            "ethylenediamine", "dimethylamine", "acetate"))
-        frag, _e, _d = fragments.place_near(recs, fname, rng, dist_A=rng.choice((3.5, 5.0, 8.0)), resnum=960, min_clear_A=3.0, lattice=True)
+                            "ethylenediamine", "dimethylamine", "acetate", "acetamidinium", "n-methylacetamide", "aniline",
+                            "imidazole", "methylguanidinium", "pyridine", "methylacetate"))
+        frag, _e, _d = fragments.place_near(recs, fname, rng, dist_A=rng.choice((3.5, 5.0, 8.0)), resnum=960, min_clear_A=3.0,
+                                            lattice=rng.random() < 0.6, shuffle=rng.random() < 0.3)
         if frag:
             recs = recs + frag
             classes.append("axis-aligned-ligand")
